@@ -53,11 +53,57 @@ pub fn check(_ctx: &Ctx, input: &Input) -> CaseResult {
             out.label("skip:walrus-rejected(C05)");
             return Ok(out);
         }
-        Err(_) => {
+        Err(f) => {
+            // a module that emits fine without the pass but cannot be emitted
+            // after it lost something that is still referenced: the pass is
+            // not precise (it removed a reachable entity)
+            let plain_ok = matches!(wal::roundtrip(&p.bytes, wal::Cfg::bare(), false), Ok(Some(_)));
+            if plain_ok && f.signature.contains("emit") || plain_ok && f.detail.contains("_index") {
+                return Err(Failure::new(
+                    format!("gc-removed-a-referenced-entity:{}", f.signature),
+                    format!("parse>emit succeeds, parse>gc>emit panics: {} [{}]", f.detail, p.origin),
+                ));
+            }
             out.label("skip:panic(C02)");
             return Ok(out);
         }
     };
+    // the same precision judgement after a function with two results has been
+    // added through the builder API and exported (its hidden entry type must
+    // not show up as a type of the output)
+    if out.hash % 4 == 0 {
+        if let Ok(Ok(mut m)) = wal::parse(&p.bytes, &cfg) {
+            let built = guard("edit", || {
+                use walrus::*;
+                let a0 = m.locals.add(ValType::I32);
+                let mut fb = FunctionBuilder::new(&mut m.types, &[ValType::I32], &[ValType::I32, ValType::I64]);
+                fb.func_body().local_get(a0).i64_const(7);
+                let f = fb.finish(vec![a0], &mut m.funcs);
+                m.exports.add("verif_built", f);
+            });
+            if built.is_ok() && wal::gc(&mut m).is_ok() {
+                if let Ok(e) = wal::emit(&mut m) {
+                    if let Ok(de) = decode(&e) {
+                        let re = reach(&de);
+                        let mut une = unreachable_items(&de, &re);
+                        let any_mem = re.mems.iter().any(|b| *b);
+                        if !de.datas.is_empty() && !any_mem {
+                            if let Some(pos) = une.iter().position(|(k, _)| k == "memory") {
+                                une.remove(pos);
+                            }
+                        }
+                        if let Some((kind, idx)) = une.first() {
+                            return Err(Failure::new(
+                                format!("unreachable-{}-survived-gc:after-adding-a-built-function", kind),
+                                format!("after adding an exported builder-made function (i32)->(i32,i64) and GC, the output contains {} {} which nothing reachable refers to (all: {:?}) [{}]", kind, idx, une, p.origin),
+                            ));
+                        }
+                        out.label("mode:built-function-added");
+                    }
+                }
+            }
+        }
+    }
     let da = match decode(&a) {
         Ok(d) => d,
         Err(_) => {
